@@ -31,7 +31,7 @@ PROPERTY = "C20"
 LEVEL = "exploration"
 ops.AVOID_NODE_OUTPUTS_ON_GRAPH_INPUTS = True
 TIERS = {
-    "quick": {"wall": 32, "optimize_wall": 8, "chunk": 40, "shrink_budget": 300, "shrink_wall": 60},
+    "quick": {"max_runs": 1200, "optimize_runs": 240, "wall": 420, "optimize_wall": 180, "chunk": 40, "shrink_budget": 300, "shrink_wall": 60},
     "thorough": {"wall": 600, "optimize_wall": 90, "chunk": 100, "shrink_budget": 600, "shrink_wall": 240},
 }
 RULE = (
@@ -192,6 +192,15 @@ def gen_case(run_seed: int, tier: str, index: int = 0) -> dict:
     r = Streams(run_seed).rng("workload")
     n = r.choice([15, 25, 35, 50])
     op_list = ops.bootstrap_ops() + ops.gen_ops(r, n)
+    # a stream of its own (the other draws of the run are unchanged): in a third of the runs one or two of the generated
+    # new_value calls are given a small lazily loaded constant whose loader counts its runs (ops.small_tensor: c % 3 == 0
+    # and (c // 7) % 23 == 12). Left to the uniform arguments that is one new_value in 69, and a journaled use of such a
+    # value about one run in a thousand - too rare for a work-bounded quick batch to rely on.
+    lz = Streams(run_seed).rng("lazy-constant-bias")
+    if lz.random() < 0.34:
+        nv = [k for k, op in enumerate(op_list) if op[0] == "new_value" and k >= len(op_list) - n]
+        for k in lz.sample(nv, min(len(nv), lz.choice([1, 2]))):
+            op_list[k][3] = 21 * (4 + 23 * lz.randrange(1 << 12)) + lz.choice([0, 3, 6])
     plan: dict = {}
     depth = 0
     for i in range(len(op_list) + 1):
